@@ -17,6 +17,10 @@ func Witnesses(prop string) []*History {
 				Ops: []Op{{Kind: "load", Vals: []int{0}}, {Kind: "load", Vals: []int{1}}, {Kind: "delete", IDs: []int{1, 1}}}},
 			{Profile: "witness:duplicate-vector-id", Cfg: k, Vals: []string{"{k:1}", "{k:2}"}, Keys: []string{"i1", "i2"},
 				Ops: []Op{{Kind: "load", Vals: []int{0}}, {Kind: "addvec", IDs: []int{1, 1}}}},
+			// descending pool, range starts 0 and null: both have empty zcode bytes
+			{Profile: "witness:lister-empty-bytes", Cfg: Cfg{Key: "k", Desc: true}, Vals: []string{"{k:0}", "{k:-1}", "{k:null}", "{k:7}"}, Keys: []string{"i0", "i-1", "n", "i7"},
+				Ops: []Op{{Kind: "load", Vals: []int{0}}, {Kind: "load", Vals: []int{1, 2}}, {Kind: "load", Vals: []int{3}}, {Kind: "load", Vals: []int{3}},
+					{Kind: "load", Vals: []int{3}}, {Kind: "load", Vals: []int{3}}, {Kind: "load", Vals: []int{3}}, {Kind: "load", Vals: []int{3}}}},
 			{Profile: "witness:this-key", Cfg: Cfg{Key: "this"}, Vals: []string{"0", "-1", "3"}, Keys: []string{"i0", "i-1", "i3"},
 				Ops: []Op{{Kind: "load", Vals: []int{2, 0, 1}}}},
 			{Profile: "witness:typed-null", Cfg: k, Vals: []string{"{k:null(int64),v:1}", "{k:5,v:2}"}, Keys: []string{"n", "i5"},
